@@ -341,6 +341,8 @@ class _InlineTemps(ast.NodeTransformer):
                 if isinstance(a, ast.Assign) and len(a.targets) == 1 and isinstance(a.targets[0], ast.Name) and b is not None:
                     t = a.targets[0].id
                     use = b.value if isinstance(b, (ast.Return, ast.Assign)) else None
+                    # (a bare call statement reads a method value / an argument tuple just as a return or an assignment does)
+                    use_x = use if use is not None else (b.value if isinstance(b, ast.Expr) and isinstance(b.value, ast.Call) else None)
                     # `t = E` / `for x in t:` and `t = E` / `with t:` -- the iterable / context manager is the first thing evaluated
                     if isinstance(b, (ast.For, ast.AsyncFor)) and isinstance(b.iter, ast.Name) and b.iter.id == t and \
                             loads.get(t, 0) == 1 and stores.get(t, 0) == 1 and t not in params:
@@ -372,10 +374,23 @@ class _InlineTemps(ast.NodeTransformer):
                         out.append(b)
                         i += 2
                         continue
+                    # the positional arguments of the one call of the next statement, named first: `args = (a, b)` / `f(*args, k=v)`
+                    if use_x is not None and isinstance(a.value, ast.Tuple) and not any(isinstance(e, ast.Starred) for e in a.value.elts) and \
+                            loads.get(t, 0) == 1 and stores.get(t, 0) == 1 and t not in params and _first_evaluated(use_x, t) and \
+                            not (isinstance(b, ast.Assign) and any(isinstance(x, ast.Name) and x.id == t for tg in b.targets for x in ast.walk(tg))):
+                        star = [x for x in ast.walk(use_x) if isinstance(x, ast.Starred) and isinstance(x.value, ast.Name) and x.value.id == t]
+                        if len(star) == 1:
+                            call = [c for c in ast.walk(use_x) if isinstance(c, ast.Call) and star[0] in c.args]
+                            if len(call) == 1:
+                                i0 = call[0].args.index(star[0])
+                                call[0].args[i0:i0 + 1] = list(a.value.elts)
+                                out.append(b)
+                                i += 2
+                                continue
                     # a named condition that calls nothing, read as the first thing the next statement evaluates:
                     # `ok = x is not None` / `return ok and y` -> `return x is not None and y`
-                    if use is not None and not isinstance(use, ast.Name) and loads.get(t, 0) == 1 and stores.get(t, 0) == 1 and t not in params and \
-                            _calls_nothing(a.value) and _leftmost_is(use, t) and \
+                    if use_x is not None and not isinstance(use_x, ast.Name) and loads.get(t, 0) == 1 and stores.get(t, 0) == 1 and t not in params and \
+                            _calls_nothing(a.value) and _leftmost_is(use_x, t) and \
                             not (isinstance(b, ast.Assign) and any(isinstance(x, ast.Name) and x.id == t for tg in b.targets for x in ast.walk(tg))):
                         _replace_name(b, t, a.value)
                         _flatten_boolops(b)
